@@ -15,15 +15,19 @@
      fix_hb = true    + rule "STANDBY, peer reports STANDBY, I win the election -> ACTIVE"
      fix_if = false   handleInterfaceEvent counts notifications (ifDownCount++ / --)
      fix_if = true    handleInterfaceEvent counts interfaces (a set of interfaces that are down)
+     fix_fc = false   handlePeerHeartbeat: the first heartbeat after a peer loss is only recorded
+                      when the group is ACTIVE or STANDBY (possible after a forced switchover out
+                      of STANDBY_ALONE), so a dual-active pair needs a second heartbeat
+     fix_fc = true    ... the PeerHeartbeatUpdate rules are applied to that heartbeat too
 
    Priorities are uint32 in Go; they are Z here, the int32 conversions of
    handleInterfaceEvent / AdjustPriority are written out with [i32]. *)
 From OV Require Import Common.Base.
 Local Open Scope Z_scope.
 
-Record variant := mkVariant { fix_hb : bool; fix_if : bool }.
-Definition Repaired  := mkVariant true true.
-Definition Defective := mkVariant false false.
+Record variant := mkVariant { fix_hb : bool; fix_if : bool; fix_fc : bool }.
+Definition Repaired  := mkVariant true true true.
+Definition Defective := mkVariant false false false.
 
 (* SRGState *)
 Inductive sst := Init | Waiting | Ready | Active | Standby | ActiveSolo | StandbyAlone.
@@ -156,6 +160,8 @@ Definition handle_hb (v : variant) (c : cfg) (n : node) (m : hb) : node * list t
     let '(n1, t1) := peer_discovered n (h_prio m) (h_st m) in
     if sst_eqb (n_st n1) Ready then
       let '(n2, t2) := elect c n1 (h_id m) in (n2, t1 ++ t2)
+    else if fix_fc v then                                  (* repaired only *)
+      let '(n2, t2) := hb_update v c n1 (h_prio m) (h_id m) (h_st m) in (n2, t1 ++ t2)
     else (n1, t1)
   else hb_update v c n (h_prio m) (h_id m) (h_st m).
 
